@@ -948,6 +948,17 @@ fn directed(t: &mut Trace, rng: &mut Rng) {
         s.remove_topic(t, 0, topic); // issuer 4 keeps an empty topic set
         s.add_topic(t, 0, topic); // re-added: no issuer
         s.verify_op(t, 11);
+        s.update_issuer(t, 0, 4, &[topic]); // trusted for it again: the stored claim counts again
+        s.verify_op(t, 11);
+        // two more bumps: only a signature over nonce 3 is confirmed
+        s.invalidate(t, 4, 8, topic);
+        s.invalidate(t, 4, 8, topic);
+        s.verify_op(t, 11);
+        let c3 = s.good_claim(4, 8, topic, k, TS0 + 1000, b"kyc", rng);
+        s.valid(t, 8, &c3);
+        s.valid(t, 8, &c1);
+        s.add_claim(t, 8, &c3);
+        s.verify_op(t, 11);
         s.remove_claim(t, 8, 4, topic);
         s.remove_claim(t, 8, 4, topic);
     }
@@ -997,7 +1008,44 @@ fn directed(t: &mut Trace, rng: &mut Rng) {
     s.verify_op(t, 11);
     s.raw_put(t, 8, 5, 1, &b);
     s.verify_op(t, 11);
+    // issuer 5's genuine topic-1 claim, but the stored record names another topic / another issuer
+    let mut lie = b.clone();
+    lie.topic = 2;
+    s.raw_put(t, 8, 5, 1, &lie);
+    s.verify_op(t, 11);
+    let mut lie = b.clone();
+    lie.issuer = 6;
+    s.raw_put(t, 8, 5, 1, &lie);
+    s.verify_op(t, 11);
+    s.raw_put(t, 8, 5, 1, &b);
+    s.verify_op(t, 11);
     s.raw_del(t, 8, 5, 1);
+    s.verify_op(t, 11);
+
+    // (3b) narrowing: two required topics, each settled by its own issuer; an issuer loses one topic
+    t.seq("directed narrowing");
+    let mut s = Sim::new();
+    setup_basic(&mut s, t);
+    s.add_topic(t, 0, 1);
+    s.add_topic(t, 0, 2);
+    s.add_issuer(t, 0, 4, &[1, 2]);
+    s.add_issuer(t, 0, 5, &[2]);
+    s.allow_key(t, 4, 1, ED25519, 0, 1);
+    s.allow_key(t, 5, 3, SECP256R1, 0, 2);
+    let a1 = s.good_claim(4, 8, 1, 1, TS0 + 5000, b"n1", rng);
+    let b2 = s.good_claim(5, 8, 2, 3, TS0 + 5000, b"n2", rng);
+    s.add_claim(t, 8, &a1);
+    s.add_claim(t, 8, &b2);
+    s.verify_op(t, 11); // ok
+    s.update_issuer(t, 0, 4, &[2]); // 4 no longer trusted for topic 1
+    s.verify_op(t, 11); // must fail: nobody trusted for topic 1
+    s.update_issuer(t, 0, 4, &[1]);
+    s.verify_op(t, 11); // ok again
+    s.update_issuer(t, 0, 5, &[1]); // 5 no longer trusted for topic 2
+    s.verify_op(t, 11); // must fail
+    s.update_issuer(t, 0, 5, &[2, 1]);
+    s.verify_op(t, 11);
+    s.remove_issuer(t, 0, 5);
     s.verify_op(t, 11);
 
     // (4) tampering of every field, directly at the issuer
@@ -1080,29 +1128,51 @@ fn subset(rng: &mut Rng, xs: &[u32]) -> Vec<u32> {
     v
 }
 
+fn own_keys(s: &Sim, i: usize, topic: u32) -> Vec<u32> {
+    s.allowed_keys(i, topic).iter().filter(|(k, sc)| *k >= 1 && *k <= 6 && s.keys[(*k - 1) as usize].scheme() == *sc).map(|(k, _)| *k).collect()
+}
+
 fn gen_claim(s: &mut Sim, rng: &mut Rng, perturb: bool) -> (usize, ClaimSpec) {
-    let i = if rng.chance(92) { *rng.pick(&ISSUERS) } else { *rng.pick(&ISSUER_CANDS) };
-    let d = if rng.chance(92) { *rng.pick(&IDS) } else { *rng.pick(&ID_CANDS) };
-    let topic = *rng.pick(&TOPICS);
-    let allowed = if ISSUERS.contains(&i) { s.allowed_keys(i, topic) } else { vec![] };
-    let own: Vec<u32> = allowed.iter().filter(|(k, sc)| *k >= 1 && *k <= 6 && s.keys[(*k - 1) as usize].scheme() == *sc).map(|(k, _)| *k).collect();
-    let mut k = if !own.is_empty() && rng.chance(90) { *rng.pick(&own) } else { rng.range(1, 6) as u32 };
-    let vu = match rng.below(14) {
-        0 => s.ts,
-        1 => s.ts + 1,
-        2 => s.ts.saturating_sub(1),
-        3 => 0,
-        4 => u64::MAX,
-        5 => s.ts + 2,
+    let mut i = if rng.chance(92) { *rng.pick(&ISSUERS) } else { *rng.pick(&ISSUER_CANDS) };
+    let d = if rng.chance(94) { *rng.pick(&IDS) } else { *rng.pick(&ID_CANDS) };
+    let mut topic = *rng.pick(&TOPICS);
+    if rng.chance(85) {
+        // state-derived: an (issuer, topic) for which some key is allowed right now
+        let mut cands = vec![];
+        for &ii in ISSUERS.iter() {
+            for &tt in TOPICS.iter() {
+                if !own_keys(s, ii, tt).is_empty() {
+                    cands.push((ii, tt));
+                }
+            }
+        }
+        if !cands.is_empty() {
+            let c = *rng.pick(&cands);
+            i = c.0;
+            topic = c.1;
+        }
+    }
+    let own: Vec<u32> = if ISSUERS.contains(&i) { own_keys(s, i, topic) } else { vec![] };
+    let mut k = if !own.is_empty() && rng.chance(92) { *rng.pick(&own) } else { rng.range(1, 6) as u32 };
+    let vu = match rng.below(20) {
+        0 => s.ts + 1,
+        1 => s.ts + 2,
+        2 => u64::MAX,
         _ => s.ts + *rng.pick(&[10u64, 100, 1000, 100_000]),
     };
-    let mut data = if !s.pool.is_empty() && rng.chance(35) { rng.pick(&s.pool).clone() } else { s.data_with(vu, &[rng.below(3) as u8]) };
+    let live: Vec<Vec<u8>> = s
+        .pool
+        .iter()
+        .filter(|d| d.len() >= 16 && u64::from_be_bytes(d[8..16].try_into().unwrap()) > s.ts)
+        .cloned()
+        .collect();
+    let mut data = if !live.is_empty() && rng.chance(35) { rng.pick(&live).clone() } else { s.data_with(vu, &[rng.below(3) as u8]) };
     let nonce = if ISSUERS.contains(&i) { s.nonce(i, d, topic) } else { 0 };
     let mut sm = Signed { net: 0, iss: i, id: d, topic, nonce, data: data.clone() };
     let mut mangle = 0;
     let mut scheme_override: Option<u32> = None;
     if perturb {
-        match rng.below(16) {
+        match rng.below(18) {
             0 => sm.net = 1,
             1 => sm.iss = *rng.pick(&ISSUER_CANDS),
             2 => sm.id = *rng.pick(&ID_CANDS),
@@ -1126,7 +1196,14 @@ fn gen_claim(s: &mut Sim, rng: &mut Rng, perturb: bool) -> (usize, ClaimSpec) {
                 sm.data = data.clone();
             }
             _ => {
-                data = s.data_with(s.ts.saturating_sub(rng.below(3)), &[7]);
+                let vu = match rng.below(5) {
+                    0 => s.ts,
+                    1 => s.ts.saturating_sub(1),
+                    2 => 0,
+                    3 => s.ts.saturating_sub(1000),
+                    _ => s.ts,
+                };
+                data = s.data_with(vu, &[7]);
                 sm.data = data.clone();
             }
         }
@@ -1147,15 +1224,16 @@ fn random_seq(t: &mut Trace, rng: &mut Rng, label: &str, len: u64) {
             s.add_topic(t, 0, tp);
         }
     }
+    let added: Vec<u32> = s.q::<SVec<u32>>(0, "get_claim_topics", args(&s.e, [])).map(|x| x.iter().collect()).unwrap_or_default();
     for &i in ISSUERS.iter() {
         if rng.chance(80) {
-            let ts = subset(rng, &TOPICS);
+            let ts = if added.is_empty() || rng.chance(10) { subset(rng, &TOPICS) } else { subset(rng, &added) };
             s.add_issuer(t, 0, i, &ts);
         }
     }
     for &i in ISSUERS.iter() {
         for &tp in TOPICS.iter() {
-            if rng.chance(60) {
+            if rng.chance(45) {
                 let k = rng.range(1, 6) as u32;
                 let sc = s.keys[(k - 1) as usize].scheme();
                 s.allow_key(t, i, k, sc, 0, tp);
@@ -1167,22 +1245,36 @@ fn random_seq(t: &mut Trace, rng: &mut Rng, label: &str, len: u64) {
     for _ in 0..len {
         let r = rng.below(100);
         let reg = if rng.chance(85) { 0 } else { 1 };
+        let cur_topics: Vec<u32> = s.q::<SVec<u32>>(reg, "get_claim_topics", args(&s.e, [])).map(|x| x.iter().collect()).unwrap_or_default();
+        let cur_issuers: Vec<usize> = s
+            .q::<SVec<Address>>(reg, "get_trusted_issuers", args(&s.e, []))
+            .map(|x| x.iter().filter_map(|a| s.u.index_of(&a)).collect())
+            .unwrap_or_default();
+        let sub = |rng: &mut Rng| -> Vec<u32> {
+            if !cur_topics.is_empty() && rng.chance(80) {
+                subset(rng, &cur_topics)
+            } else {
+                subset(rng, &TOPICS)
+            }
+        };
         if r < 5 {
-            let tp = *rng.pick(&TOPICS);
+            let absent: Vec<u32> = TOPICS.iter().copied().filter(|x| !cur_topics.contains(x)).collect();
+            let tp = if !absent.is_empty() && rng.chance(80) { *rng.pick(&absent) } else { *rng.pick(&TOPICS) };
             s.add_topic(t, reg, tp);
         } else if r < 9 {
-            let tp = *rng.pick(&TOPICS);
+            let tp = if !cur_topics.is_empty() && rng.chance(80) { *rng.pick(&cur_topics) } else { *rng.pick(&TOPICS) };
             s.remove_topic(t, reg, tp);
         } else if r < 14 {
-            let i = *rng.pick(&ISSUER_CANDS);
-            let ts = subset(rng, &TOPICS);
+            let absent: Vec<usize> = ISSUER_CANDS.iter().copied().filter(|x| !cur_issuers.contains(x)).collect();
+            let i = if !absent.is_empty() && rng.chance(80) { *rng.pick(&absent) } else { *rng.pick(&ISSUER_CANDS) };
+            let ts = sub(rng);
             s.add_issuer(t, reg, i, &ts);
         } else if r < 18 {
-            let i = *rng.pick(&ISSUER_CANDS);
+            let i = if !cur_issuers.is_empty() && rng.chance(80) { *rng.pick(&cur_issuers) } else { *rng.pick(&ISSUER_CANDS) };
             s.remove_issuer(t, reg, i);
         } else if r < 23 {
-            let i = *rng.pick(&ISSUER_CANDS);
-            let ts = subset(rng, &TOPICS);
+            let i = if !cur_issuers.is_empty() && rng.chance(80) { *rng.pick(&cur_issuers) } else { *rng.pick(&ISSUER_CANDS) };
+            let ts = sub(rng);
             s.update_issuer(t, reg, i, &ts);
         } else if r < 27 {
             let a = *rng.pick(&ACCOUNTS);
@@ -1197,20 +1289,42 @@ fn random_seq(t: &mut Trace, rng: &mut Rng, label: &str, len: u64) {
                 }
             };
         } else if r < 35 {
-            let i = *rng.pick(&ISSUERS);
+            let mut i = *rng.pick(&ISSUERS);
+            let mut tp = *rng.pick(&TOPICS);
+            if rng.chance(75) {
+                let mut cands = vec![];
+                for &ii in ISSUERS.iter() {
+                    if let Some(ts) = s.q::<SVec<u32>>(reg, "get_trusted_issuer_claim_topics", args(&s.e, [s.a(ii)])) {
+                        for tt in ts.iter() {
+                            cands.push((ii, tt));
+                        }
+                    }
+                }
+                if !cands.is_empty() {
+                    let c = *rng.pick(&cands);
+                    i = c.0;
+                    tp = c.1;
+                }
+            }
             let k = if rng.chance(4) { 0 } else { rng.range(1, 6) as u32 };
             let sc = if k == 0 || rng.chance(8) { *rng.pick(&SCHEMES) } else { s.keys[(k - 1) as usize].scheme() };
-            let tp = *rng.pick(&TOPICS);
             s.allow_key(t, i, k, sc, reg, tp);
         } else if r < 40 {
             // remove a key that is there (state-derived), sometimes a random one
-            let i = *rng.pick(&ISSUERS);
-            let tp = *rng.pick(&TOPICS);
-            let al = s.allowed_keys(i, tp);
-            if !al.is_empty() && rng.chance(80) {
-                let (k, sc) = *rng.pick(&al);
+            let mut cands = vec![];
+            for &ii in ISSUERS.iter() {
+                for &tt in TOPICS.iter() {
+                    for (k, sc) in s.allowed_keys(ii, tt) {
+                        cands.push((ii, tt, k, sc));
+                    }
+                }
+            }
+            if !cands.is_empty() && rng.chance(80) {
+                let (i, tp, k, sc) = *rng.pick(&cands);
                 s.remove_key(t, i, k, sc, reg, tp);
             } else {
+                let i = *rng.pick(&ISSUERS);
+                let tp = *rng.pick(&TOPICS);
                 let k = rng.range(1, 6) as u32;
                 let sc = s.keys[(k - 1) as usize].scheme();
                 s.remove_key(t, i, k, sc, reg, tp);
@@ -1225,11 +1339,38 @@ fn random_seq(t: &mut Trace, rng: &mut Rng, label: &str, len: u64) {
             let d = if IDS.contains(&d) { d } else { *rng.pick(&IDS) };
             // mostly under its own id; sometimes under another issuer's / topic's id
             let (ci_, ct) = if rng.chance(70) { (c.issuer, c.topic) } else { (*rng.pick(&ISSUER_CANDS), *rng.pick(&TOPICS)) };
+            let mut c = c;
+            if rng.chance(25) {
+                // the stored claim lies about its own topic / issuer (signature and id untouched)
+                if rng.chance(50) {
+                    c.topic = *rng.pick(&TOPICS);
+                } else {
+                    c.issuer = *rng.pick(&ISSUER_CANDS);
+                }
+            }
             s.raw_put(t, d, ci_, ct, &c);
         } else if r < 74 {
-            let d = *rng.pick(&IDS);
-            let ci_ = *rng.pick(&ISSUER_CANDS);
-            let ct = *rng.pick(&TOPICS);
+            let mut d = *rng.pick(&IDS);
+            let mut ci_ = *rng.pick(&ISSUER_CANDS);
+            let mut ct = *rng.pick(&TOPICS);
+            if rng.chance(75) {
+                let mut cands = vec![];
+                for &dd in IDS.iter() {
+                    for &ii in ISSUER_CANDS.iter() {
+                        for &tt in TOPICS.iter() {
+                            if s.q::<Claim>(dd, "get_claim", args(&s.e, [v(&s.e, s.claim_id(ii, tt))])).is_some() {
+                                cands.push((dd, ii, tt));
+                            }
+                        }
+                    }
+                }
+                if !cands.is_empty() {
+                    let c = *rng.pick(&cands);
+                    d = c.0;
+                    ci_ = c.1;
+                    ct = c.2;
+                }
+            }
             // the library's remove_claim de-indexes under the claim's own topic field; keep the
             // identity contract consistent: use it only when that is the id's topic
             let consistent = s
@@ -1242,9 +1383,28 @@ fn random_seq(t: &mut Trace, rng: &mut Rng, label: &str, len: u64) {
                 s.raw_del(t, d, ci_, ct);
             }
         } else if r < 78 {
-            let i = *rng.pick(&ISSUERS);
-            let d = *rng.pick(&ID_CANDS);
-            let tp = *rng.pick(&TOPICS);
+            let mut i = *rng.pick(&ISSUERS);
+            let mut d = *rng.pick(&ID_CANDS);
+            let mut tp = *rng.pick(&TOPICS);
+            if rng.chance(70) {
+                // of a claim some identity holds
+                let mut cands = vec![];
+                for &dd in IDS.iter() {
+                    for &ii in ISSUERS.iter() {
+                        for &tt in TOPICS.iter() {
+                            if s.q::<Claim>(dd, "get_claim", args(&s.e, [v(&s.e, s.claim_id(ii, tt))])).is_some() {
+                                cands.push((dd, ii, tt));
+                            }
+                        }
+                    }
+                }
+                if !cands.is_empty() {
+                    let c = *rng.pick(&cands);
+                    d = c.0;
+                    i = c.1;
+                    tp = c.2;
+                }
+            }
             s.invalidate(t, i, d, tp);
         } else if r < 84 {
             let i = *rng.pick(&ISSUERS);
